@@ -270,7 +270,32 @@ fn name_strategy() -> impl Strategy<Value = BStr> {
     })
 }
 
+/// `unix_lit!` is evaluated at compile time: a fixed set of literals (not generated).
+fn check_literals() -> CaseResult {
+    use rusl::unix_lit;
+    let lits: [(&str, &UnixStr); 7] = [
+        ("", unix_lit!("")),
+        ("/", unix_lit!("/")),
+        ("a", unix_lit!("a")),
+        ("/etc/passwd", unix_lit!("/etc/passwd")),
+        ("dir/", unix_lit!("dir/")),
+        ("h\u{e9}llo \u{20ac}", unix_lit!("h\u{e9}llo \u{20ac}")),
+        ("with space and = and -", unix_lit!("with space and = and -")),
+    ];
+    for (src, u) in lits {
+        terminated("unix_lit!", src, u.as_slice(), u.as_ptr(), u.len(), true)?;
+        ensure!(&u.as_slice()[..u.len() - 1] == src.as_bytes(), "unix_lit!|wrong-contents", "unix_lit!({src:?}) = {:?}", escape(u.as_slice()));
+        ensure!(core::ptr::eq(UnixStr::EMPTY.as_slice().last().unwrap(), UnixStr::EMPTY.as_slice().first().unwrap()) && UnixStr::EMPTY.len() == 1, "UnixStr::EMPTY|not a lone terminator", "EMPTY = {:?}", escape(UnixStr::EMPTY.as_slice()));
+    }
+    let mut rep = CaseReport::new();
+    rep.class("literals");
+    Ok(rep)
+}
+
 pub fn run(ctx: &Ctx) {
+    if ctx.worker == 0 && !ctx.is_replay() {
+        ctx.run_one("literals", &"unix_lit! fixed set", check_literals);
+    }
     if !ctx.is_replay() {
         let strings = all_strings(&ALPHA, 5);
         let mut ok = true;
